@@ -36,7 +36,7 @@ func runC04(p *Prog, r *Report) {
 	r.MinInstances["C04.R2"] = 4
 	r.MinInstances["C04.R3"] = 3
 	r.MinInstances["C04.R4"] = 6
-	r.MinInstances["C04.R5"] = 3
+	r.MinInstances["C04.R5"] = 4
 	frameRule(p, r, "C04.R1", func(fs frameSite) bool { return strings.Contains(FuncName(fs.fn), "LanceroSource") })
 	c04R2R3(p, r)
 	c04R4(p, r)
@@ -540,6 +540,51 @@ func c04R5(p *Prog, r *Report) {
 		}
 	})
 	r.Check(nRel >= 1 && okRel, "C04.R5", "each card is told to release exactly frames-used x frame-size bytes", p.Pos(fn.Pos()), fmt.Sprintf("%d release calls", nRel), "the bytes released to the driver are not frames-used x frame-size: data is skipped or read twice")
+	// the 3-frame minimum of the property: shorter reads are skipped without releasing bytes,
+	// and the frame-bit search runs only on reads of at least three frames
+	okMin, minDesc := false, "no guard of the form len(b) < k*frameSize found"
+	Instrs(fn, func(in ssa.Instruction) {
+		iff, ok := in.(*ssa.If)
+		if !ok {
+			return
+		}
+		bo, ok := iff.Cond.(*ssa.BinOp)
+		if !ok || bo.Op != token.LSS {
+			return
+		}
+		rhs := pc.Of(bo.Y)
+		if len(rhs) != 1 {
+			return
+		}
+		for sym, k := range rhs {
+			if !strings.Contains(sym, "frameSize") || strings.Contains(sym, "*") {
+				return
+			}
+			if !strings.HasPrefix(pc.Of(bo.X).String(), "len(") {
+				return
+			}
+			minDesc = fmt.Sprintf("reads shorter than %d frames are skipped", k)
+			// the short branch releases nothing
+			short := iff.Block().Succs[0]
+			rel := false
+			for _, x := range short.Instrs {
+				if cc := CallOf(x); cc != nil && cc.IsInvoke() && cc.Method.Name() == "ReleaseBytes" {
+					rel = true
+				}
+			}
+			// the frame-bit search is on the other branch
+			search := false
+			Instrs(fn, func(x ssa.Instruction) {
+				if c, ok := x.(*ssa.Call); ok && c.Call.StaticCallee() != nil && c.Call.StaticCallee().Name() == "FindFrameBits" {
+					if iff.Block().Succs[1] == c.Block() || iff.Block().Succs[1].Dominates(c.Block()) {
+						search = true
+					}
+				}
+			})
+			okMin = k >= 3 && !rel && search
+		}
+	})
+	r.Check(okMin, "C04.R5", "reads shorter than the 3-frame minimum are left for the next tick", p.Pos(fn.Pos()), minDesc, "the reader accepts reads shorter than three frames ("+minDesc+"): the frame-bit search fails on a read of exactly that many frames and the bytes are released unprocessed, silently losing frames")
 	// buffer lengths all equal framesUsed: one make in a loop over all processors
 	okLen := false
 	Instrs(fn, func(in ssa.Instruction) {
